@@ -6,7 +6,7 @@ Request   <op>|<arg>|…|<impl>|<tol>      answer: `agree` or `DISAGREE <model v
          `T`/`F` flags as 1/0) or `err <ErrorName>`
   tol    rational t: two numbers agree when |a - b| ≤ t · max(1, |a|, |b|); errors must agree exactly
   arg    rationals `p/q`; vectors / matrices comma separated; an OCS is `<T|F>,<16 numbers>`; lists `;` separated
-ops      ot (OCSTransform methods)  ext (transform_extrusion)  line  circle  arc  lw  solid  ins  imat  nest  up
+ops      ot (OCSTransform methods)  ext (transform_extrusion)  line  circle  arc  lw  solid  ins  imat  nest  up  temp  hatch  text  mtext  rytz  minor  mline  dim  pl2d  ell  elledge  mins
 Square roots are supplied by `sqrtA` (relative error < 2⁻¹⁰⁰; the theorems quantify over exact roots); directions are
 normalised with it before they are compared with (cos, sin) of the angle the real code stores.
 -/
@@ -133,6 +133,59 @@ partial def parseNode : List String → Option (Node × List String)
     | _, _ => none
   | _ => none
 
+-- ------------------------------------------------------------------------------------------- HATCH paths
+def parsePts (s : String) : Option (List V2) := if s.isEmpty then some [] else (s.splitOn "_").mapM parseV2
+def parseOptV2 (s : String) : Option (Option V2) := if s = "n" then some none else (parseV2 s).map some
+
+/-- edge: `L:s:e` | `A:c:r:s:e:<T|F full>:<T|F ccw>` | `S:cps:fits:st:et` | `C:c` -/
+def parseEdge (s : String) : Option HEdge :=
+  match s.splitOn ":" with
+  | ["L", a, b] => do some (.line (← parseV2 a) (← parseV2 b))
+  | ["A", c, r, a, b, f, w] => do some (.arc (← parseV2 c) (← parseRat r) (← parseV2 a) (← parseV2 b) (f = "T") (w = "T"))
+  | ["S", cps, fits, st, et] => do some (.spline (← parsePts cps) (← parsePts fits) (← parseOptV2 st) (← parseOptV2 et))
+  | ["C", c] => do some (.ellipse (← parseV2 c))
+  | _ => none
+
+def parsePVertex (s : String) : Option PVertex :=
+  match parseRats s with | some [x, y, b] => some ⟨x, y, b⟩ | _ => none
+
+/-- path: `P;<T|F closed>;v;v;…` | `E;edge;edge;…` -/
+def parsePath (s : String) : Option BPath :=
+  match s.splitOn ";" with
+  | "P" :: c :: vs => (vs.mapM parsePVertex).map fun l => .poly l (c = "T")
+  | "E" :: es => (es.mapM parseEdge).map .edges
+  | _ => none
+
+def edgeOut : HEdge → List (Option (List Rat))
+  | .line a b => [some (v2l a), some (v2l b)]
+  | .arc c r a b _ _ => [some (v2l c), some [r], some (unit2 a), some (unit2 b)]
+  | .spline cps fits st et =>
+    (cps.map fun v => some (v2l v)) ++ (fits.map fun v => some (v2l v)) ++ [st.map v2l, et.map v2l]
+  | .ellipse c => [some (v2l c)]
+
+def pathOut : BPath → List (Option (List Rat))
+  | .poly vs _ => vs.map fun v => some [v.x, v.y, v.bulge]
+  | .edges es => es.flatMap edgeOut
+
+/-- DIMENSION attribute `name=P:x,y,z` | `name=A:c,s` -/
+def parseDimAttr (s : String) : Option (String × DimVal) :=
+  match s.splitOn "=" with
+  | [n, v] =>
+    match v.splitOn ":" with
+    | ["P", p] => (parseV3 p).map fun q => (n, DimVal.pt q)
+    | ["A", d] => (parseV2 d).map fun q => (n, DimVal.ang q)
+    | _ => none
+  | _ => none
+
+/-- 2-D POLYLINE vertex `x,y,z,bulge:sw|n:ew|n` -/
+def parsePlVertex (s : String) : Option PlVertex :=
+  match s.splitOn ":" with
+  | [a, sw, ew] =>
+    match parseRats a with
+    | some [x, y, z, b] => do some ⟨⟨x, y, z⟩, b, ← parseOpt sw, ← parseOpt ew⟩
+    | _ => none
+  | _ => none
+
 def model (op : String) (a : List String) : Option Out :=
   match op, a with
   | "ot", [m, old, new, kind, x, y] => do
@@ -192,6 +245,65 @@ def model (op : String) (a : List String) : Option Out :=
     let f := Node.flat M44.identity n
     -- both the level-by-level expansion and the path-product specification are returned: they must coincide
     some (.ok ((e.map fun p => some (v3l p)) ++ (f.map fun p => some (v3l p))))
+  | "hatch", [m, old, new, u, elev, paths] => do
+    let o : OcsT := ⟨← parseM m, ← parseOcs old, ← parseOcs new, u = "T"⟩
+    let ps ← (if paths.isEmpty then some [] else (paths.splitOn "#").mapM parsePath)
+    match Hatch.transform sqrtA o ⟨ps, ← parseRat elev⟩ with
+    | some h => some (.ok (some [h.elevation] :: h.paths.flatMap pathOut))
+    | none => some (.err "NotModelled")
+  | "text", [m, old, new, u, ins, al, rot, obl, h, w, t] => do
+    let o : OcsT := ⟨← parseM m, ← parseOcs old, ← parseOcs new, u = "T"⟩
+    match Txt.transform sqrtA o ⟨← parseV3 ins, ← parseOptV3 al, ← parseV2 rot, ← parseV2 obl, ← parseRat h, ← parseRat w, ← parseOpt t⟩ with
+    | .ok x => some (.ok [some (v3l x.insert), optV x.align, some (unit2 x.rot), some (v2l x.obl), some [x.height], some [x.width], optR x.thickness])
+    | .error e => some (.err (terr e))
+  | "mtext", [m, old, ins, dir, ext, h, w] => do
+    match MTxt.transform sqrtA (← parseOcs old) (← parseM m) ⟨← parseV3 ins, ← parseV3 dir, ← parseV3 ext, ← parseRat h, ← parseOpt w⟩ with
+    | .ok x => some (.ok [some (v3l x.insert), some (v3l x.dir), some (v3l x.ext), some [x.charHeight], optR x.width])
+    | .error e => some (.err (terr e))
+  | "rytz", [a, b] => do
+    match TransformKernels.rytzS sqrtA (← parseV3 a) (← parseV3 b) with
+    | .ok (mj, mn, ratio) => some (.ok [some (v3l mj), some (v3l mn), some [ratio]])
+    | .error .valueError => some (.err "ArithmeticError")
+    | .error e => some (.err (perr e))
+  | "mline", [m, sc, pts] => do
+    let l := MLine.transform sqrtA (← parseM m) ⟨← parseList parseV3 pts, ← parseRat sc⟩
+    some (.ok (some [l.scale] :: l.locations.map fun p => some (v3l p)))
+  | "dim", [m, old, new, attrs] => do
+    let o : OcsT := ⟨← parseM m, ← parseOcs old, ← parseOcs new, true⟩
+    let r := Dim.transform o (← parseList parseDimAttr attrs)
+    some (.ok (r.map fun nv => match nv.2 with | .pt p => some (v3l p) | .ang d => some (unit2 d)))
+  | "minor", [a, b, r] => do
+    match TransformKernels.minorAxisS sqrtA (← parseV3 a) (← parseV3 b) (← parseRat r) with
+    | .ok v => some (.ok [some (v3l v)])
+    | .error e => some (.err (perr e))
+  | "pl2d", [m, old, new, u, elev, t, vs] => do
+    let o : OcsT := ⟨← parseM m, ← parseOcs old, ← parseOcs new, u = "T"⟩
+    match Polyline2d.transform sqrtA o ⟨← parseList parsePlVertex vs, ← parseOpt elev, ← parseOpt t⟩ with
+    | .ok p => some (.ok ([optR p.elevation, optR p.thickness] ++
+        p.vertices.flatMap fun v => [some [v.loc.x, v.loc.y, v.loc.z, v.bulge], optR v.startWidth, optR v.endWidth]))
+    | .error e => some (.err (terr e))
+  | "ell", [m, c, mj, ext, r] => do
+    match Ell.transform sqrtA (← parseM m) ⟨← parseV3 c, ← parseV3 mj, ← parseV3 ext, ← parseRat r⟩ with
+    | .ok e => some (.ok [some (v3l e.center), some (v3l e.major), some (v3l e.minor), some (v3l e.ext), some [e.ratio]])
+    | .error .valueError => some (.err "ArithmeticError")
+    | .error x => some (.err (perr x))
+  | "elledge", [m, old, new, elev, c, mj, r] => do
+    let o : OcsT := ⟨← parseM m, ← parseOcs old, ← parseOcs new, true⟩
+    match ellipseEdgeAxes sqrtA o (← parseRat elev) (← parseV2 c) (← parseV2 mj) (← parseRat r) with
+    | .ok (c', mj', r') => some (.ok [some (v2l c'), some (v2l mj'), some [r']])
+    | .error .valueError => some (.err "ArithmeticError")
+    | .error x => some (.err (perr x))
+  | "mins", [sc, sc', cs, rs] => do
+    match ← parseRats sc, ← parseRats sc' with
+    | [sx, sy, sz], [sx', sy', sz'] =>
+      let r := minsertSpacing ⟨⟨0, 0, 0⟩, sx, sy, sz, ⟨1, 0⟩⟩ ⟨⟨0, 0, 0⟩, sx', sy', sz', ⟨1, 0⟩⟩ (← parseRat cs) (← parseRat rs)
+      some (.ok [some [r.1], some [r.2]])
+    | _, _ => none
+  | "temp", [ms] => do
+    -- history of `transform` calls on one ACIS entity: the pending matrix (absent for an empty history)
+    match tempRun none (← parseList parseM ms) with
+    | some acc => some (.ok [some acc.toList])
+    | none => some (.ok [none])
   | "up", ["circle", c, r, t] => do
     let c' := (Circle.mk (← parseV3 c) (← parseRat r) (← parseOpt t)).upright
     some (.ok (circleOut c'))
